@@ -46,7 +46,7 @@ var c20Expect = [][4]string{
 	{"File", "SetCellRichText", "prepareCell", "pathPrepare"},
 	{"File", "GetCellRichText", "mergeCellsParser CellNameToCoordinates getCell", "pathRichGet"},
 	{"File", "SetCellHyperLink", "SplitCellName mergeCellsParser", "pathLinkSet"},
-	{"File", "GetCellHyperLink", "SplitCellName CellNameToCoordinates CoordinatesToCellName", "pathLinkGet"},
+	{"File", "GetCellHyperLink", "SplitCellName mergeCellsParser", "pathLinkGet"},
 	{"File", "AddComment", "addVMLObject", "pathCommentAdd"},
 	{"File", "addComment", "CellNameToCoordinates CoordinatesToCellName", "pathCommentAdd"},
 	{"File", "DeleteComment", "CellNameToCoordinates CoordinatesToCellName deleteFormControl", "pathCommentDel"},
